@@ -31,7 +31,7 @@ SRC = [
 ]
 NF, NC = I.NF, I.NC
 REAL_TC_OPS = ("Mutate", "CrossOver", "XOverOp")
-REAL_SUITE_OPS = ("Add", "AddMany", "Delete", "Set", "Mutate", "MemberMutate", "CrossOver", "XOverOp")
+REAL_SUITE_OPS = ("Add", "AddMany", "AddAlias", "AddTwice", "Delete", "Set", "Mutate", "MemberMutate", "CrossOver", "XOverOp")
 
 
 # ------------------------------------------------------------------------------------------------
@@ -168,6 +168,17 @@ def gen_suite_history(rng, n_ops, model_mode):
         ops.append(q())
         ops += [("MemberMutate", i) for _ in range(rng.choice([1, 2, 3]))]
         ops += [rng.choice([("GetFitnessFor", sf), ("GetIsCovered", sf), ("GetFitness",)]), q()]
+    elif rng.random() < 0.2:
+        # aliasing: the same chromosome object twice in the suite, followed by further tests that need execution
+        sf = rng.randrange(NF)
+        ops += [rng.choice([("AddTwice", rng.randrange(1, 9)), ("Add", rng.randrange(1, 9))])]
+        if ops[0][0] == "Add":
+            ops.append(("AddAlias", 0))
+        ops += [("Add", rng.randrange(1, 9)) for _ in range(rng.choice([1, 2]))]
+        ops += [("AddFit", sf), rng.choice([("GetFitnessFor", sf), ("GetFitness",), ("GetIsCovered", sf)])]
+        freg.add(sf)
+        ops += [("MemberMutate", rng.choice([0, 1])), ("MemberMutate", 2), rng.choice([("GetFitnessFor", sf), ("GetFitness",)]),
+                ("Clone",), ("GetFitnessFor", sf)]
     for k in range(len(ops), max(n_ops, len(ops))):
         c = rng.random()
         op = None
@@ -195,6 +206,7 @@ def gen_suite_history(rng, n_ops, model_mode):
             op = ("MemberMutate", rng.randrange(8))
         elif c < 0.70:
             op = rng.choice([("Add", rng.randrange(0, 9)), ("Delete", rng.randrange(8)),
+                             ("AddAlias", rng.randrange(8)), ("AddAlias", rng.randrange(8)), ("AddTwice", rng.randrange(0, 9)),
                              ("Set", rng.randrange(8), rng.randrange(0, 9)),
                              ("AddMany", [rng.randrange(0, 9) for _ in range(rng.choice([0, 1, 2]))])])
         elif c < 0.76:
@@ -288,8 +300,15 @@ def c_tcase(world, init_code, steps):
     return cpair(c_tables(world), cpair(cZ(init_code), h))
 
 
+def c_step_sop(s):
+    m = s["modelop"]
+    if m[0] == "Member" and m[-1] == "aliased":     # several positions changed at once: observed Edit
+        return c_sop(("Edit", s["after"]["members"], s["after"]["changed"]))
+    return c_sop(m)
+
+
 def c_scase(world, steps):
-    h = clist(cpair(c_sop(s["modelop"]), cpair(c_suite(s["after"]), c_out(s["out"]))) for s in steps)
+    h = clist(cpair(c_step_sop(s), cpair(c_suite(s["after"]), c_out(s["out"]))) for s in steps)
     return cpair(c_tables(world), h)
 
 
@@ -323,14 +342,19 @@ def oracle_steps(level, steps):
                 kind = "drop-empty" if [c for c in bc if c != 0] == [c for c in ac if c != 0] else "content"
                 return (f"discipline:suite:{name}:{kind}", f"{name} changed the suite's tests {bc} -> {ac} but the "
                         "suite's `changed` is still False", k)
-            if name in ("Mutate", "MemberMutate") and len(bc) <= len(ac) + 8:
+            if name in ("Mutate", "MemberMutate"):
                 # a member whose content changed must be flagged itself (it is re-executed only then)
-                bm = {id_: m for id_, m in enumerate(b["members"])}
                 for m in a["members"]:
                     if not m["changed"] and m["last"] is not None and m["last"] != m["content"]:
                         return (f"discipline:suite-member:{name}", f"a member has content {m['content']}, last "
                                 f"executed content {m['last']} and `changed` False after {name}", k)
-                del bm
+        if level == "suite":
+            # result streams, per test: a member that counts as executed must hold the result of executing ITS OWN
+            # current content (a suite run hands each test the result that belongs to it)
+            for pos, m in enumerate(a["members"]):
+                if not m["changed"] and m["last"] is not None and m["last"] != m["content"]:
+                    return (f"stale-result:suite-member:{name}", f"after {name}: member {pos} has content {m['content']} but holds the "
+                            f"execution result of content {m['last']} and `changed` is False", k)
         # (a) query answers equal the value recomputed from scratch
         q, st = (op, a) if name in I.QUERIES else (None, None)
         mop = s["modelop"]
@@ -384,7 +408,7 @@ def run_one(level, case, scratch):
                                                    case.get("exc", False), case.get("chop"), case.get("maxlen"))
         return world, steps, c_tcase(world, init_code, steps)
     world, steps = I.run_suite_history(case["seed"], case["salt"], case["cons"], ops, scratch,
-                                       case.get("exc", False), case.get("chop"), case.get("maxlen"))
+                                       case.get("exc", False), case.get("chop"), case.get("maxlen"), case.get("eager", False))
     return world, steps, c_scase(world, steps)
 
 
@@ -408,6 +432,8 @@ def run(ctx: vlib.Ctx):
             # search configuration of the real operators: executions that raise at an early statement, chop of
             # over-long tests on/off, small chromosome_length (tests at/over the limit, insertion refused)
             cfg = {"exc": ctx.rng.random() < 0.6, "chop": ctx.rng.random() < 0.8, "maxlen": ctx.rng.choice([2, 3, 4, 6, 48])}
+            if level == "suite":
+                cfg["eager"] = ctx.rng.random() < 0.5      # execute_multiple returns a list (eager) or a generator (lazy)
             if level == "testcase":
                 init, ops = gen(ctx.rng, n_ops, mode == "model")
                 cases.append({"level": level, "mode": mode, "seed": seed, "salt": salt, "cons": mode == "real" or ctx.rng.random() < 0.5,
@@ -458,7 +484,7 @@ def run(ctx: vlib.Ctx):
                 ops2 = shrink_ops(list(case["ops"][:k + 1]), still)
                 ctx.fail(sig, msg, {"level": level, "mode": "real", "seed": case["seed"], "salt": case["salt"],
                                     "cons": case["cons"], "init": case.get("init", 0), "exc": case.get("exc", False),
-                                    "chop": case.get("chop"), "maxlen": case.get("maxlen"),
+                                    "chop": case.get("chop"), "maxlen": case.get("maxlen"), "eager": case.get("eager", False),
                                     "ops": [list(o) for o in ops2]})
     ctx.count("answers-differing-from-scratch(all modes, incl. deliberately undisciplined)", stale_seen)
     ctx.leg("S", oracle_failures=n_or, histories=sum(1 for c in cases if c["mode"] == "real"))
@@ -480,7 +506,7 @@ def run(ctx: vlib.Ctx):
                 ctx.broken(f"correspondence:C12-model-vs-{level}-chromosome",
                            "the cache/flag model (about which the theorems are proved) no longer reproduces the implementation",
                            {"level": level, "mode": case["mode"], "seed": case["seed"], "salt": case["salt"], "cons": case["cons"],
-                            "exc": case.get("exc", False), "chop": case.get("chop"), "maxlen": case.get("maxlen"),
+                            "exc": case.get("exc", False), "chop": case.get("chop"), "maxlen": case.get("maxlen"), "eager": case.get("eager", False),
                             "init": case.get("init", 0), "ops": [list(o) for o in case["ops"]],
                             "mismatching_histories": len(bad)})
         else:
